@@ -18,15 +18,22 @@
          wherever a PI may stand: a misplaced XML declaration), except at the very beginning (after
          a BOM), where it may be followed by any white space: the XML declaration
      P5  [decl_names_ok text]: in the XML declaration the pseudo-attribute names are exactly
-         version / encoding / standalone.  FINDING: the crate tests starts_with "version" (resp.
-         "encoding", "standalone") and then reads a qualified name, so <?xml versionX='1.0'?>,
-         <?xml version:x='1.0'?>, <?xml version='1.0' encodingX='u'?> are accepted
+         version / encoding / standalone.  FORMER FINDING: the crate tested starts_with "version"
+         (resp. "encoding", "standalone") and then read a qualified name, so <?xml versionX='1.0'?>,
+         <?xml version:x='1.0'?>, <?xml version='1.0' encodingX='u'?> were accepted.
+         FIXED in the crate (D23): now rejected (InvalidString, parse_pseudo_attribute); the
+         condition is kept, it is now redundant
      P6  [names_nc text] (scan): the name after "<!DOCTYPE", after "<!ENTITY" (and "%"), after "NDATA"
          contains no ':'.  FINDING (as N5): Namespaces in XML forbid colons in entity and notation
          names; the crate accepts <!ENTITY a:b 'v'> and &a:b; , NDATA n:m, <!DOCTYPE a:b> (the last
          one is fine for XML but S5 has CstU.wf_name for it)
      P7  [ndata_sp text]: "NDATA" is not glued to the closing quote of the system literal.
-         FINDING: <!ENTITY e SYSTEM 'x'NDATA n> is accepted (skip_spaces instead of S)
+         FORMER FINDING: <!ENTITY e SYSTEM 'x'NDATA n> was accepted (skip_spaces instead of S).
+         FIXED in the crate (D23): now rejected (InvalidChar2 "a whitespace"); the condition is
+         kept, it is now redundant
+     (D23) the crate now also checks the external identifiers: the system literal consists of
+     Chars (NonXmlChar otherwise), the public literal of PubidChars (InvalidExternalID otherwise);
+     no condition of the fragment is needed for S5.wf_syslit / S5.wf_publit.
      P8  [ge_values_ok text] (scan): the literal of every general entity declaration is character
          data in the sense of S5 (CstFull.wf_uepieces q false true true): no '<' (markup-valued
          entities are the documents of S4, not of S5), no '%', no "]]>", every '&' starts a
@@ -243,7 +250,8 @@ Proof. vm_compute. reflexivity. Qed.
 Example cexp_xml_pi : forallb (fun t => acc (b t) && negb (xml_pi_ok (b t)))       (* P4: documented, <?xml?> *)
   [ "<?xml?><r/>"; "<r/><?xml?>"; "<r><?xml	v?></r>"; "<!DOCTYPE r [<?xml?>]><r/>" ]%string = true.
 Proof. vm_compute. reflexivity. Qed.
-Example cexp_decl_names : forallb (fun t => acc (b t) && negb (decl_names_ok (b t)))   (* P5: FINDING *)
+(* (D23) formerly accepted (P5 was a FINDING): now rejected by the crate, and still outside P5 *)
+Example cexp_decl_names : forallb (fun t => negb (acc (b t)) && negb (decl_names_ok (b t)))
   [ "<?xml versionX='1.0'?><r/>"; "<?xml version:x='1.0'?><r/>"; "<?xml version='1.0' encodingX='u'?><r/>";
     "<?xml version='1.0' standalone.='u'?><r/>" ]%string = true.
 Proof. vm_compute. reflexivity. Qed.
@@ -251,7 +259,8 @@ Example cexp_names_nc : forallb (fun t => acc (b t) && negb (names_nc (b t)))   
   [ "<!DOCTYPE r [<!ENTITY a:b 'v'>]><r>&a:b;</r>"; "<!DOCTYPE r [<!ENTITY % a:b 'v'>]><r/>";
     "<!DOCTYPE r [<!ENTITY e SYSTEM 'x' NDATA n:m>]><r/>"; "<!DOCTYPE a:b><a:b xmlns:a='u'/>" ]%string = true.
 Proof. vm_compute. reflexivity. Qed.
-Example cexp_ndata : forallb (fun t => acc (b t) && negb (ndata_sp (b t)))          (* P7: FINDING *)
+(* (D23) formerly accepted (P7 was a FINDING): now rejected by the crate, and still outside P7 *)
+Example cexp_ndata : forallb (fun t => negb (acc (b t)) && negb (ndata_sp (b t)))
   [ "<!DOCTYPE r [<!ENTITY e SYSTEM 'x'NDATA n>]><r/>"; "<!DOCTYPE r [<!ENTITY e PUBLIC 'p' ""x""NDATA n>]><r/>" ]%string = true.
 Proof. vm_compute. reflexivity. Qed.
 Example cexp_ge_values : forallb (fun t => acc (b t) && negb (ge_values_ok (b t)))   (* P8: documented; S4 for markup values *)
